@@ -63,6 +63,28 @@ def closure_ret(F, cexpr):
         return None, None
     R = Resolver(cb)
     rets = [e for _, e in R.return_expr()]
+    # a captured function value that is called (`|c| pred(&c.state)` with pred = NodeState::is_feasible handed down as an argument):
+    # the call of the capture is the call of that function
+    if cexpr[2] and any(isinstance(x, tuple) and x[:2] == ('call', 'Fn::call') or isinstance(x, tuple) and x[:2] == ('call', 'FnMut::call_mut') for r in rets for x in walk(r)):
+        idx = cb.upvar_index()
+        caps = cexpr[2]
+
+        def direct(e):
+            if not isinstance(e, tuple) or not e:
+                return e
+            if e[0] == 'closure':
+                return e
+            e = tuple(direct(x) for x in e)
+            if e[0] == 'call' and e[1] in ('Fn::call', 'FnMut::call_mut', 'FnOnce::call_once') and len(e[2]) == 2 and e[2][0][:1] == ('upvar',):
+                i = idx.get(e[2][0][1])
+                f = caps[i] if i is not None and i < len(caps) else None
+                if f is not None and f[0] == 'closure' and not f[2]:
+                    fb = F.by_path.get(f[1])
+                    args = e[2][1][2] if e[2][1][0] == 'agg' and e[2][1][1] == 'tuple' else (e[2][1],)
+                    if fb is not None and fb.kind != 'Closure':
+                        return ('call', fb.qname, tuple(args)) + tuple(e[3:])
+            return e
+        rets = [direct(r) for r in rets]
     return cb, rets
 
 
@@ -120,6 +142,40 @@ def apply_closure(F, clo, arg):
                 return None
             m[x] = clo[2][i]
     return subst(rets[0], m)
+
+
+def closure_true_facts(F, clo):
+    """Guard literals that hold whenever the closure literal `clo` returns true (for `any(|x| a && b)`: both a and b), with captured variables
+    replaced by the captured expressions; the closure's own parameter stays ('param', name).  None if the closure has more than one way to return true."""
+    from ..mir import phi_table
+    cb = F.closure(clo[1])
+    if cb is None:
+        return None
+    R = Resolver(cb)
+    alts = []
+    tab = phi_table(cb, R, 0)
+    if not tab:
+        return None
+    for v, lits, bb in tab:
+        if v == ('const', False):
+            continue
+        if v[0] in ('phi', 'local'):
+            continue
+        facts = [tuple(l[:3]) if l[0] == 'is' else tuple(l[:2]) for l in lits]
+        if v != ('const', True):
+            facts.append(('true', v))
+        alts.append(facts)
+    if len(alts) != 1:
+        return None
+    idx = cb.upvar_index()
+    m = {}
+    for f in alts[0]:
+        for x in walk(f[1]):
+            if isinstance(x, tuple) and x[:1] == ('upvar',):
+                i = idx.get(x[1])
+                if i is not None and i < len(clo[2]):
+                    m[x] = clo[2][i]
+    return [(f[0], subst(f[1], m)) + tuple(f[2:]) for f in alts[0]]
 
 
 def beta_option_map(F, e, depth=0):
@@ -184,6 +240,16 @@ def holds_cmp(lits, op, left, right=None):
             if oo == op and s(aa) == s(left) and (right is None or s(bb_) == s(right)):
                 return True
     return False
+
+
+def dfs_component(e):
+    """(data expression, component name) if e is a component of a DfsNodeData value, written either through the tuple of `extract()`
+    (`data.extract().0`) or as a field (`data.depth`); None otherwise."""
+    if e[0] == 'field' and is_call(e[1], 'DfsNodeData::extract') and e[2] in ('0', '1', '2'):
+        return e[1][2][0], {'0': 'depth', '1': 'index', '2': 'n_remaining'}[e[2]]
+    if e[0] == 'field' and e[2] in ('depth', 'index', 'n_remaining'):
+        return e[1], e[2]
+    return None
 
 
 def cmp_facts(lits):
@@ -405,7 +471,11 @@ def _merge_justified(ctx, F, b, R, bb, args, lits, rule, site, span):
             ctx.bad(rule, site, 'a decision is skipped without requiring both "exactly one feasible child" and "all other K-1 children Infeasible"', span)
             return 'bad'
         # merged child is the feasible one of the same node
-        ok = any(is_call(x, 'Vec::pop') and s(x[2][0]) == s(feas[0]) for x in walk(l)) and any(is_call(x, 'Vec::pop') and s(x[2][0]) == s(feas[0]) for x in walk(p))
+        # the list has exactly one element on this path, so any element access denotes it
+        ELEM = ('Vec::pop', 'Index::index', 'Iterator::next', '[T]::first', '[T]::last', 'Vec::remove', 'Vec::swap_remove', 'Itertools::exactly_one')
+        def drawn(e):
+            return any(is_call(x, *ELEM) and x[2] and s(x[2][0]) == s(feas[0]) for x in walk(e))
+        ok = drawn(l) and drawn(p)
         same = s(feas[1][2][1]) == s(inf[1][2][1])
         if ok and same:
             return 'J3: decision skipped under |children with feasible state| == 1 and |children with Infeasible state| == K-1; the forwarded child is the feasible one'
@@ -798,6 +868,19 @@ def check_witness_guards(ctx, rule):
             ctx.bad(rule, site, 'a point is cached as feasibility witness without a dominating containment test on it (payload %s)' % fmt(payload)[:160], span)
     if n == 0:
         ctx.lost(rule, 'construction of NodeState::FeasibleWitness')
+
+
+def vec_literal_elements(b, R, v):
+    """elements of `vec![a, b, ..]` (lowered to an array written into a fresh box that is converted with box_assume_init_into_vec_unsafe); [] otherwise"""
+    out = []
+    if v[0] == 'call' and v[1].endswith('box_assume_init_into_vec_unsafe') and v[2]:
+        box = v[2][0]
+        for i, j, st in b.stmts():
+            if st['k'] == 'assign' and st['place']['proj'] and st['rv']['k'] == 'agg' and st['rv']['agg']['k'] == 'array':
+                tgt = R.place(st['place'], i, j)
+                if any(x == box for x in walk(tgt)):
+                    out.extend(R.rvalue(st['rv'], i, j)[2])
+    return out
 
 
 def _stored_points(payload, b=None, R=None):
